@@ -277,10 +277,12 @@ class Interp:
             return a.term == b.term
         if isinstance(a, VStruct) or isinstance(b, VStruct):
             return self.struct_eq(a, b)
-        if type(a).__name__ == 'PyList' and (z3.is_expr(b) or isinstance(b, VBox)):
+        if type(a).__name__ == 'PyList' and (z3.is_expr(b) or isinstance(b, (VBox, tuple, list))):
             a = tuple(a.items)
-        if type(b).__name__ == 'PyList' and (z3.is_expr(a) or isinstance(a, VBox)):
+        if type(b).__name__ == 'PyList' and (z3.is_expr(a) or isinstance(a, (VBox, tuple, list))):
             b = tuple(b.items)
+        if type(a).__name__ == 'PyList' and type(b).__name__ == 'PyList':
+            a, b = tuple(a.items), tuple(b.items)
         if isinstance(a, VBox) or isinstance(b, VBox):
             ta = a.term if isinstance(a, VBox) else a
             tb = b.term if isinstance(b, VBox) else b
